@@ -110,18 +110,19 @@ theorem C01_gen_source_ids (N : Net L K) (hids : N.ids.Nodup) :
 
 /-! ### node_analysis.py -/
 
-/-- `node_matrix_element`: diagonal = admittance connected to the node, off-diagonal = minus the
-admittance between the nodes, ideal voltage sources skipped by the `isfinite` filter -/
+/-- `node_matrix_element`: diagonal = admittance connected to the node (self-loop branches skipped by
+the `b.node1 != b.node2` guard), off-diagonal = minus the admittance between the nodes, ideal voltage
+sources skipped by the `isfinite` filter -/
 theorem C01_gen_Yentry (N : Net L K) (i j : L) : node_matrix_element N i j = N.Yentry i j := gen_Yentry N i j
 
-/-- `voltage_source_direction`: +1 at `node1`, −1 at `node2`, 0 elsewhere -/
+/-- `voltage_source_direction`: (+1 at `node1`) − (+1 at `node2`), 0 elsewhere and on a self-loop -/
 theorem C01_gen_dir (N : Net L K) (vs : String) (n : L) :
     voltage_source_direction N vs n = match N.get? vs with
       | some b => .ok (b.dir n)
       | none => .error .keyError := by
   rw [gen_dir, gen_getitem]; cases N.get? vs <;> rfl
 
-/-- the two guarded writes of `source_incidence_matrix`, second write wins -/
+/-- the two guarded accumulating writes (`-= 1`, `+= 1`) of `source_incidence_matrix` -/
 theorem C01_gen_Qentry [LawfulLabelOrd L] (N : Net L K) (hids : N.ids.Nodup) :
     source_incidence_matrix N
       = .ok ⟨N.nodes.length, N.csIds.length, N.nodes.map fun n => N.csSorted.map fun b => N.Qentry b n⟩ :=
